@@ -429,33 +429,16 @@ fn roundtrip(n: &Norm, probe: Option<(&'static str, usize, usize)>) -> Outcome {
     }
 }
 
-static ST: [AtomicU64; 6] = [AtomicU64::new(0), AtomicU64::new(0), AtomicU64::new(0), AtomicU64::new(0), AtomicU64::new(0), AtomicU64::new(0)];
-extern "C" fn dump_stats() {
-    let v: Vec<u64> = ST.iter().map(|a| a.load(Ordering::Relaxed)).collect();
-    eprintln!("STATS roundtrips={} probes={} build_ms={} save_ms={} load_ms={} attributions={}", v[0], v[1], v[2] / 1_000_000, v[3] / 1_000_000, v[4] / 1_000_000, v[5]);
-}
-
 fn roundtrip_inner(n: &Norm, probe: Option<(&'static str, usize, usize)>) -> Outcome {
-    ST[0].fetch_add(1, Ordering::Relaxed);
-    if probe.is_some() {
-        ST[1].fetch_add(1, Ordering::Relaxed);
-    }
-    let t0 = std::time::Instant::now();
     let orig = build(n);
-    let t1 = std::time::Instant::now();
     let bytes = match orig.to_bytes("ans", &n.opts.save_options()) {
         Ok(b) => b,
         Err(e) => return Outcome::SaveError(e.to_string()),
     };
-    let t2 = std::time::Instant::now();
     let loaded = match Buffer::from_bytes(Path::new("x.ans"), true, &bytes) {
         Ok(b) => b,
         Err(e) => return Outcome::LoadError(e.to_string()),
     };
-    let t3 = std::time::Instant::now();
-    ST[2].fetch_add((t1 - t0).as_nanos() as u64, Ordering::Relaxed);
-    ST[3].fetch_add((t2 - t1).as_nanos() as u64, Ordering::Relaxed);
-    ST[4].fetch_add((t3 - t2).as_nanos() as u64, Ordering::Relaxed);
     let h = n.grid.len();
     let mut tmp = Vec::new();
     if let Some((clause, x, y)) = probe {
@@ -623,6 +606,39 @@ impl Attr {
         } else {
             false
         }
+    }
+
+    /// A colour/blink mismatch caused by displaced output becomes a character mismatch once every coloured or blinking
+    /// blank carries a glyph: such cases are keyed by the character clause.
+    fn try_upgrade(&mut self) -> bool {
+        if !matches!(self.p.clause, "blink" | "bg") {
+            return false;
+        }
+        for skip_failing_row in [false, true] {
+            let mut c = self.n.clone();
+            for (y, row) in c.grid.iter_mut().enumerate() {
+                if skip_failing_row && y == self.p.y {
+                    continue;
+                }
+                for cell in row.iter_mut() {
+                    if is_blank(cell.0 as u32) && (cell.2 != Col::D(0) || cell.3 & F_BLINK != 0) {
+                        cell.0 = b'A';
+                    }
+                }
+            }
+            if c.grid == self.n.grid {
+                continue;
+            }
+            if let Outcome::Differs(v, _) = roundtrip(&c, None) {
+                if let Some(m) = v.iter().find(|m| m.clause == "char") {
+                    self.n = c;
+                    self.p = Probe { clause: "char", x: m.x, y: m.y };
+                    self.msg = m.msg.clone();
+                    return true;
+                }
+            }
+        }
+        false
     }
 
     /// ddmin-style: neutralise as many of `runs` as possible ('A' on default colours; single runs also as default blanks)
@@ -901,7 +917,6 @@ impl Attr {
 /// step applies); a step is kept when the same clause is still violated at the same cell. The key names the clause and
 /// the options / features whose removal from the final reduced case makes it pass.
 fn attribute(n0: &Norm, first: &Mis) -> (String, String) {
-    ST[5].fetch_add(1, Ordering::Relaxed);
     let mut a = Attr {
         n: n0.clone(),
         p: Probe { clause: first.clause, x: first.x, y: first.y },
@@ -910,31 +925,7 @@ fn attribute(n0: &Norm, first: &Mis) -> (String, String) {
         protect_bom: false,
     };
 
-    // a colour/blink mismatch caused by displaced output becomes a character mismatch once every coloured or blinking
-    // blank carries a glyph: key such cases by the character clause
-    if matches!(a.p.clause, "blink" | "bg") {
-        for skip_failing_row in [false, true] {
-            let mut c = a.n.clone();
-            for (y, row) in c.grid.iter_mut().enumerate() {
-                if skip_failing_row && y == a.p.y {
-                    continue;
-                }
-                for cell in row.iter_mut() {
-                    if is_blank(cell.0 as u32) && (cell.2 != Col::D(0) || cell.3 & F_BLINK != 0) {
-                        cell.0 = b'A';
-                    }
-                }
-            }
-            if let Outcome::Differs(v, _) = roundtrip(&c, None) {
-                if let Some(m) = v.iter().find(|m| m.clause == "char") {
-                    a.n = c;
-                    a.p = Probe { clause: "char", x: m.x, y: m.y };
-                    a.msg = m.msg.clone();
-                    break;
-                }
-            }
-        }
-    }
+    a.try_upgrade();
 
     let mut steps: Vec<Step> = vec![Step::Window, Step::Join, Step::Runs, Step::Width, Step::Window, Step::Join, Step::Runs, Step::Bom, Step::Unmargin, Step::Trailing];
     steps.extend((0..FEATURES.len()).map(Step::Feature));
@@ -944,10 +935,17 @@ fn attribute(n0: &Norm, first: &Mis) -> (String, String) {
     // first pass: every step; further passes: only the steps that were blocked (their removal made the case pass) are
     // tried again on the further reduced case, until none of them can be dropped
     let mut needed: Vec<Step> = Vec::new();
-    for s in &steps {
-        let (_, blocked) = a.apply(*s);
-        if blocked {
-            needed.push(*s);
+    for round in 0..2 {
+        needed.clear();
+        for s in &steps {
+            let (_, blocked) = a.apply(*s);
+            if blocked {
+                needed.push(*s);
+            }
+        }
+        // the reduction may have moved the probe to the origin of a displacement: try the clause upgrade once more
+        if round == 1 || !a.try_upgrade() {
+            break;
         }
     }
     for _pass in 0..4 {
@@ -1425,9 +1423,6 @@ fn minimize(c: &Case) -> Vec<Case> {
 }
 
 fn main() {
-    if std::env::var("ICYV_C04_STATS").is_ok() {
-        unsafe { libc::atexit(dump_stats) };
-    }
     let mut eng = Engine::new("C04");
     eng.rule(
         "buffers: single-layer buffers, width 80 (1..=132 when save_sauce), height 1..=60, rows = run-structured cell lists (runs of 1..=width equal cells, cut at the right margin, \
@@ -1440,7 +1435,9 @@ fn main() {
          Class tag = 2 hex digits of the booleans (bit0 compress, 1 cursor_forward, 2 repeat, 3 preserve_line_length, 4 longer_terminal, 5 extended_colors, 6 save_sauce, 7 lossles_output) followed by the \
          digits prep(0 None,1 ClearScreen,2 Home) ctrl(0 Ignore,1 IcyTerm,2 FilterOut) ice(0 Unlimited,1 Blink,2 Ice). \
          Non-trivial: >= 2 attribute changes between consecutive cells AND >= 1 compressible run (>= 5 equal cells in a row or >= 2 trailing black blanks) AND option vector != (SaveOptions::default(), Unlimited); \
-         distinct by hash of the case. Failure key = oracle clause | input features whose removal makes the reduced case pass | options that must differ from the all-off vector (greedy reduction to a fixpoint, fixed order).",
+         distinct by hash of the case. While a known finding with one of the ids listed under coverage.steering is open, the generator removes its trigger from the buffers \
+         (bold on dark DOS foregrounds / concealed flag / trailing blinking blanks under compress / >=5 spaces on a 48;5;n background under compress+cursor_forward+extended_colors / \
+         a cursor-forward run ending at the right margin / the EF BB BF prefix); such cases carry a ~ after the class tag. Failure key = oracle clause | input features whose removal makes the reduced case pass | options that must differ from the all-off vector (greedy reduction to a fixpoint, fixed order).",
     );
     eng.assume("what a cell shows is computed as Buffer::render_to_rgba does: palette RGB of the foreground (entry+8 when bold and entry<8) and of the background; NUL, space and 0xFF are one blank class; foreground of blanks is not compared");
     eng.assume("rows or cells missing from the loaded buffer count as blank on black, not blinking; rows below the saved rectangle must be blank on black");
